@@ -216,6 +216,7 @@ class Integer(int, AnyAtomicType):
         elif isinstance(value, str):
             if cls.pattern.match(value) is None:
                 raise cls._invalid_value(value)
+            cls(value)  # checks the bounds of the derived integer types
         else:
             raise cls._invalid_type(value)
 
